@@ -124,7 +124,7 @@ def run(ctx):
     PINIT = "proc_init_fixed" if fixed else "proc_init"
     ctx.meta["processor_variant"] = PINIT
     ncases = ctx.n(260, 4000)
-    cases_tree, cases_ann, cases_proc, cases_hg, cases_script, cases_batch = [], [], [], [], [], []
+    cases_tree, cases_ann, cases_proc, cases_hg, cases_script, cases_batch, cases_chain = [], [], [], [], [], [], []
     records = []
 
     for ci in range(ncases):
@@ -218,6 +218,12 @@ def run(ctx):
                                     "(proc_init_fixed {n} true) {p}, Z.eqb (pflops_acc (run_path (proc_simplify_batch "
                                     "(proc_init_fixed {n} true)) {p})) (pflops_acc (run_path (proc_init_fixed {n} true) {p})))".format(
                                         n=netl, p=coq(list(path))), "(true, true)"))
+            if not rep_ and not dang:
+                # hypotheses and conclusion of C18_reported_flops_eq_tree_flops on this case
+                cases_chain.append(("chain%d" % ci,
+                                    "(init_lr_b {n} (proc_init_fixed {n} true), match ssa_tree (NN {n}) {p} with "
+                                    "Some t => Z.eqb (reported_flops_gen true {n} {p}) (total_flops {n} [] t) "
+                                    "| None => false end)".format(n=netl, p=coq(list(path))), "(true, true)"))
             cases_proc.append(("proc%d" % ci,
                                "(proc_obs ({I} {n} true), (proc_obs (proc_simplify_single ({I} {n} true)), "
                                "(proc_replay (proc_simplify_single ({I} {n} true)) {p}, "
@@ -362,6 +368,8 @@ def run(ctx):
             ("c18_script", ["Simulators"], cases_script,
              "Model/Simulators.v proc_trace vs ContractionProcessor simplify_batch/single_terms/scalars/contract_nodes"),
             ("c18_hg", ["Simulators"], cases_hg, "Model/HGraph.v hg_replay vs HyperGraph.contract"),
+            ("c18_chain", ["Simulators", "Compressed", "SimulatorsFacts", "ProcessorTreeFacts"], cases_chain,
+             "hypotheses (init_lr_b, ssa_tree) and conclusion of C18_reported_flops_eq_tree_flops on the generated case"),
             ("c18_batch", ["Simulators", "SimulatorsFacts"], cases_batch,
              "hypotheses (proc_ok_b, present_b) of C18_fixed_run_reports_unsimplified_flops on the generated case")):
         failing = ctx.coq_cases(name, imports, cases, chunk=60)
